@@ -568,6 +568,107 @@ fn composition_specs(seed: u64, max_len: usize) -> Vec<Spec> {
 /// id to a new subscription B. The consumer still holds the ended stream A and lets go of it at some point. B is a
 /// subscription of its own: it yields every notification sent for the id after B was accepted, does not end, and no
 /// unsubscribe request goes out until the consumer lets go of B itself (then exactly one).
+/// Directed family: a TYPED stream (`Subscription<u64>`) receives payloads that are not of its type among good ones. Such
+/// an item is yielded as an error item; the stream goes on, it has not ended (no close reason), the good items before and
+/// after arrive in order, and letting go of it sends the one unsubscribe request like for any other stream.
+async fn typed_stream_case(seed: u64) -> Out {
+	let mut out = Out::default();
+	let mut r = Rng::new(seed);
+	let (client, mut srv) = client(ClientCfg { sub_buffer: 64, string_ids: r.bool(), build_path: r.below(4) as u8, ..Default::default() });
+	macro_rules! bad {
+		($sig:expr, $($arg:tt)*) => { out.violations.push(($sig.to_string(), format!($($arg)*))) };
+	}
+	let c = client.clone();
+	let t = tokio::spawn(async move { c.subscribe::<u64, _>("sub", rpc_params!["typed"], "unsub").await });
+	settle().await;
+	let sub_id = if r.bool() { json!(77) } else { json!("typed-77") };
+	for m in srv.drain_out() {
+		if let jrv::script::ClientOut::Msg { text, .. } = m {
+			if let WireMsg::Single(q) = parse_wire(&text) {
+				srv.push_text(ok_response(q.id.as_ref().unwrap_or(&Value::Null), sub_id.clone()));
+			}
+		}
+	}
+	let Ok(Ok(Ok(mut s))) = tokio::time::timeout(Duration::from_secs(30), t).await else {
+		bad!("subscribe-failed/accepted-subscription", "typed stream");
+		return out;
+	};
+	// good and wrong-typed payloads
+	let n = 3 + r.usize(6);
+	let mut sent: Vec<Option<u64>> = Vec::new();
+	for k in 0..n {
+		if r.chance(1, 3) {
+			let wrong = match r.below(3) {
+				0 => json!("not a number"),
+				1 => json!({"n": k}),
+				_ => json!(-1),
+			};
+			srv.push_text(sub_notif("m", &sub_id, wrong));
+			sent.push(None);
+		} else {
+			srv.push_text(sub_notif("m", &sub_id, json!(k)));
+			sent.push(Some(k as u64));
+		}
+	}
+	settle().await;
+	for (k, want) in sent.iter().enumerate() {
+		match (tokio::time::timeout(Duration::from_secs(5), s.next()).await, want) {
+			(Ok(Some(Ok(v))), Some(w)) if v == *w => out.items_yielded += 1,
+			(Ok(Some(Err(_))), None) => out.items_yielded += 1,
+			(other, _) => {
+				bad!("wrong-item/typed-stream", "item {k}: sent {want:?}, the stream yielded {:?}", other.map(|o| o.map(|r| r.map_err(|e| e.to_string()))));
+				return out;
+			}
+		}
+		if let Some(reason) = s.close_reason() {
+			bad!("close-reason/on-a-live-stream", "after item {k} the stream is alive (more items follow) but close_reason() = {reason:?}");
+			return out;
+		}
+	}
+	// letting go: exactly one unsubscribe request naming the subscription
+	if r.bool() {
+		drop(s);
+	} else {
+		let t = tokio::spawn(s.unsubscribe());
+		settle().await;
+		for m in srv.drain_out() {
+			if let jrv::script::ClientOut::Msg { text, .. } = m {
+				if let WireMsg::Single(q) = parse_wire(&text) {
+					if q.method == "unsub" {
+						out.unsub_requests += 1;
+						if q.params.get(0) != Some(&sub_id) {
+							bad!("unsubscribe-malformed/params", "{}", q.params);
+						}
+					}
+					if let Some(id) = &q.id {
+						srv.push_text(ok_response(id, json!(true)));
+					}
+				}
+			}
+		}
+		let _ = tokio::time::timeout(Duration::from_secs(30), t).await;
+	}
+	settle().await;
+	settle().await;
+	for m in srv.drain_out() {
+		if let jrv::script::ClientOut::Msg { text, .. } = m {
+			if let WireMsg::Single(q) = parse_wire(&text) {
+				if q.method == "unsub" {
+					out.unsub_requests += 1;
+					if q.params.get(0) != Some(&sub_id) {
+						bad!("unsubscribe-malformed/params", "{}", q.params);
+					}
+				}
+			}
+		}
+	}
+	if out.unsub_requests != 1 {
+		bad!("unsubscribe-count/typed-stream-with-error-items", "{} unsubscribe request(s) after the consumer let go of a typed stream that had yielded {} error item(s); the request queue had room", out.unsub_requests, sent.iter().filter(|x| x.is_none()).count());
+	}
+	out.history.push(format!("typed stream, sent {sent:?}"));
+	out
+}
+
 async fn id_issued_again_case(seed: u64) -> Out {
 	let mut out = Out::default();
 	let mut r = Rng::new(seed);
@@ -1066,6 +1167,26 @@ fn main() {
 		for (e, v) in res {
 			ev.merge(e);
 			violations.extend(v);
+		}
+	}
+	if !replay {
+		let n = ctx.tier.pick(300u64, 20_000);
+		let seed = ctx.seed;
+		let res = run_parallel((0..n).collect(), |_, i| {
+			let s = Rng::fork(seed, 33_000_000 + i).next_u64();
+			(s, block_on_virtual(typed_stream_case(s)))
+		});
+		for (s, o) in res {
+			ev.eval();
+			ev.count("cases_typed_stream_with_wrong_typed_payloads", 1);
+			ev.count("items_yielded", o.items_yielded as u64);
+			if o.items_yielded > 0 {
+				ev.nontrivial(&("typed-stream", s));
+			}
+			let w = json!({"scenario": "typed stream with payloads of another type", "seed": s, "history": o.history});
+			for (sig, d) in o.violations {
+				violations.push(Violation::new(sig, d, w.clone()));
+			}
 		}
 	}
 	let results = run_parallel(specs.chunks(100).map(|c| c.to_vec()).collect(), |_, chunk| {
